@@ -625,6 +625,153 @@ Proof.
     apply negb_true_iff in H; now rewrite H.
 Qed.
 
+(* ----------------------- completeness from any point where the socket works *)
+
+(* one step that is not a fault of c, taken while c's socket works: what c has received or
+   has queued grows exactly by what the specification says was sent to it *)
+Lemma working_step c s g x :
+  Inv c s g -> is_fault_of c x = false ->
+  memz c (failing s) = false -> memz c (closed s) = false ->
+  exists d,
+    recv c (do_step s x) ++ pending c (do_step s x) = (recv c s ++ pending c s) ++ d /\
+    sp_sent (spec_step c g x) = sp_sent g ++ d /\
+    memz c (failing (do_step s x)) = false /\ memz c (closed (do_step s x)) = false /\
+    (sp_conn g = true ->
+       sp_conn (spec_step c g x) = true /\
+       d = match x with Emit e _ => [e] | _ => [] end).
+Proof.
+  intros I NF F C. pose proof (Inv_memz _ _ _ I) as M. destruct I as (I1 & I2 & I3 & I4).
+  destruct x as [e ord|d|d|d|d|]; cbn [do_step spec_step is_fault_of] in *.
+  - unfold recv, pending. cbn [clients queue closed failing delivered].
+    rewrite for_client_app, for_client_map, (snapshot_count c ord _ _ I1).
+    destruct (sp_conn g) eqn:SC; cbn [sp_sent sp_conn map].
+    + exists [e]. repeat split; auto. now rewrite app_assoc.
+    + exists []. rewrite !app_nil_r. repeat split; auto; discriminate.
+  - exists []. rewrite !app_nil_r.
+    destruct (memz d (clients s) || memz d (closed s)); destruct ((d =? c) && negb (sp_used g)) eqn:E;
+      cbn [sp_sent sp_conn]; repeat split; auto.
+  - exists []. rewrite !app_nil_r. rewrite NF. cbn [andb].
+    destruct (memz d (clients s)); repeat split; auto.
+    cbn [closed]. now rewrite memz_cons_other.
+  - exists []. rewrite !app_nil_r. repeat split; auto. cbn [failing]. now rewrite memz_cons_other.
+  - exists []. rewrite !app_nil_r. repeat split; auto. cbn [failing].
+    rewrite memz_removez_other; [assumption|]. now rewrite Z.eqb_sym.
+  - exists []. rewrite !app_nil_r.
+    destruct (queue s) as [|[c' m] q] eqn:Q; [repeat split; auto|].
+    unfold recv, pending. rewrite Q.
+    destruct (c' =? c) eqn:EC.
+    + apply Z.eqb_eq in EC. subst c'. rewrite C, F.
+      cbn [orb clients queue closed failing delivered].
+      rewrite for_client_cons_self, for_client_snoc_self, <- app_assoc. repeat split; auto.
+    + destruct (memz c' (closed s) || memz c' (failing s));
+        cbn [clients queue closed failing delivered];
+        rewrite (for_client_cons_other c c' m q EC); [repeat split; auto|].
+      rewrite (for_client_snoc_other c c' m _ EC). repeat split; auto.
+Qed.
+
+Lemma working_run c l s g :
+  Inv c s g -> no_faults c l = true ->
+  memz c (failing s) = false -> memz c (closed s) = false ->
+  exists new,
+    recv c (run_from s l) ++ pending c (run_from s l) = (recv c s ++ pending c s) ++ new /\
+    sp_sent (spec_from c g l) = sp_sent g ++ new /\
+    (sp_conn g = true -> new = emitted l).
+Proof.
+  revert s g. induction l as [|x l IH]; intros s g I NF F C.
+  - exists []. rewrite !app_nil_r. repeat split; auto.
+  - cbn in NF. apply andb_true_iff in NF. destruct NF as [N1 N2]. apply negb_true_iff in N1.
+    destruct (working_step c s g x I N1 F C) as (d & E1 & E2 & F' & C' & K).
+    destruct (IH _ _ (Inv_step c s g x I) N2 F' C') as (new & E3 & E4 & K').
+    exists (d ++ new).
+    change (run_from s (x :: l)) with (run_from (do_step s x) l).
+    change (spec_from c g (x :: l)) with (spec_from c (spec_step c g x) l).
+    rewrite E3, E1, E4, E2, !app_assoc. repeat split; auto.
+    intros SC. destruct (K SC) as [SC' ->]. rewrite (K' SC').
+    destruct x; reflexivity.
+Qed.
+
+(* T1, from any point on: if after l1 the socket of c works (not failing, not closed) and l2
+   contains no fault step of c, nothing sent to c during l2 - nor anything still queued for it
+   - is lost; a connected c gets every event emitted in l2 *)
+Lemma working_nothing_lost l1 l2 c :
+  memz c (failing (run l1)) = false -> memz c (closed (run l1)) = false ->
+  no_faults c l2 = true ->
+  exists new,
+    recv c (run (l1 ++ l2)) ++ pending c (run (l1 ++ l2))
+      = (recv c (run l1) ++ pending c (run l1)) ++ new /\
+    sent c (l1 ++ l2) = sent c l1 ++ new /\
+    (memz c (clients (run l1)) = true -> new = emitted l2).
+Proof.
+  intros F C NF.
+  pose proof (Inv_run c l1 init spec_init (Inv_init c)) as I.
+  destruct (working_run c l2 _ _ I NF F C) as (new & E1 & E2 & K).
+  exists new. rewrite run_app. unfold sent. rewrite spec_from_app. repeat split; auto.
+  intros M. apply K. now rewrite <- (Inv_memz _ _ _ I).
+Qed.
+
+(* in particular after a recovery: SocketFails ... SocketRecovers c, c still connected *)
+Lemma recovered_complete l1 l2 c :
+  memz c (clients (run l1)) = true -> no_faults c l2 = true ->
+  queue (run (l1 ++ SocketRecovers c :: l2)) = [] ->
+  exists before, recv c (run (l1 ++ SocketRecovers c :: l2)) = before ++ emitted l2.
+Proof.
+  intros M NF Q.
+  pose proof (Inv_run c l1 init spec_init (Inv_init c)) as I.
+  assert (C : memz c (closed (run l1)) = false).
+  { destruct I as (_ & _ & I3 & _). apply I3. now rewrite <- (Inv_memz _ _ _ (Inv_run c l1 init spec_init (Inv_init c))). }
+  replace (l1 ++ SocketRecovers c :: l2) with ((l1 ++ [SocketRecovers c]) ++ l2) in *
+    by now rewrite <- app_assoc.
+  destruct (working_nothing_lost (l1 ++ [SocketRecovers c]) l2 c) as (new & E1 & _ & K); auto.
+  - rewrite run_app. cbn. apply memz_removez_self.
+  - rewrite run_app. cbn. exact C.
+  - unfold pending in E1 at 1. rewrite Q in E1. cbn in E1. rewrite app_nil_r in E1.
+    eexists. rewrite E1, K; [reflexivity|]. rewrite run_app. cbn. exact M.
+Qed.
+
+(* the split used by the monitor predicate *)
+Lemma split_last_fault_spec c l :
+  let '(a, b) := split_last_fault c l in
+  l = a ++ b /\ no_faults c b = true /\
+  (a = [] \/ exists a' x, a = a' ++ [x] /\ is_fault_of c x = true).
+Proof.
+  induction l as [|x t IH]; cbn; [repeat split; auto|].
+  destruct (split_last_fault c t) as [a b]. destruct IH as (E & NF & L).
+  destruct a as [|y a].
+  - destruct (is_fault_of c x) eqn:F.
+    + repeat split; auto; [now rewrite E|]. right. exists [], x. auto.
+    + repeat split; auto; [now rewrite E|]. unfold no_faults in *. cbn [forallb]. now rewrite F, NF.
+  - repeat split; auto; [now rewrite E|]. right.
+    destruct L as [L|(a' & z & L & F)]; [discriminate|].
+    exists (x :: a'), z. split; [|assumption]. cbn. now rewrite L.
+Qed.
+
+Lemma is_suffixb_app p x : is_suffixb x (p ++ x) = true.
+Proof.
+  unfold is_suffixb. rewrite app_length.
+  replace (length p + length x - length x)%nat with (length p) by lia.
+  rewrite skipn_app, skipn_all, Nat.sub_diag. cbn [skipn app].
+  apply andb_true_iff. split; [apply Nat.leb_le; lia|].
+  apply (proj2 (list_eqb_spec Z.eqb Z.eqb_eq _ _)). reflexivity.
+Qed.
+
+Lemma t1_recovered_ok_holds l c :
+  queue (run l) = [] -> t1_recovered_ok c l (recv c (run l)) = true.
+Proof.
+  intros Q. unfold t1_recovered_ok.
+  pose proof (split_last_fault_spec c l) as S. destruct (split_last_fault c l) as [a b].
+  destruct S as (E & NF & L).
+  destruct L as [->|(a' & x & -> & F)]; [reflexivity|].
+  rewrite rev_app_distr. cbn [rev app].
+  destruct (is_recover_of c x) eqn:R; [|reflexivity]. cbn [andb].
+  destruct x as [e ord|d|d|d|d|]; try discriminate. cbn in R. apply Z.eqb_eq in R. subst d.
+  destruct (sp_conn (spec_from c spec_init (a' ++ [SocketRecovers c]))) eqn:SC; [|reflexivity].
+  assert (M : memz c (clients (run a')) = true).
+  { unfold run. rewrite (Inv_memz _ _ _ (Inv_run c a' init spec_init (Inv_init c))).
+    rewrite spec_from_app in SC. exact SC. }
+  subst l. rewrite <- app_assoc in *. cbn [app] in *.
+  destruct (recovered_complete a' b c M NF Q) as (before & ->). apply is_suffixb_app.
+Qed.
+
 (* --------------------------------------------------------------- monitors *)
 
 Lemma subseqb_complete a b : subseq a b -> subseqb a b = true.
@@ -688,6 +835,17 @@ Example nonvac_healthy :
   no_faults 1 ex_steps = true /\ recv 1 (drained_run ex_steps) = [10; 11; 12; 13]
   /\ recv 2 (drained_run ex_steps) = [10; 12; 13] /\ recv 3 (drained_run ex_steps) = []
   /\ sent 2 ex_steps = [10; 11; 12; 13] /\ sent 3 ex_steps = [11].
+Proof. vm_compute. repeat split. Qed.
+
+(* client 2 of ex_steps fails, recovers while still connected, and gets the later event *)
+Example nonvac_recovered :
+  let l1 := [Connect 1; Connect 2; Emit 10 []; RunCallback; RunCallback; SocketFails 2; Emit 11 [];
+             RunCallback; RunCallback] in
+  let l2 := [Emit 12 []; RunCallback; RunCallback; Emit 13 []; RunCallback; RunCallback] in
+  memz 2 (clients (run l1)) = true /\ no_faults 2 l2 = true /\
+  queue (run (l1 ++ SocketRecovers 2 :: l2)) = [] /\
+  recv 2 (run (l1 ++ SocketRecovers 2 :: l2)) = [10; 12; 13] /\
+  t1_recovered_ok 2 (l1 ++ SocketRecovers 2 :: l2) [10; 12] = false.
 Proof. vm_compute. repeat split. Qed.
 
 Example nonvac_disconnect :
